@@ -180,6 +180,8 @@ def c13_stages(ctx):
         tar_sched_stage(ctx, "tarimpl-2x2", "Tar.gate.t2b.cfg", race_reps=5)
         tar_sched_stage(ctx, "tarimpl-2x3", "Tar.gate.more.cfg", race_reps=2)
         tar_sched_stage(ctx, "tarimpl-kinds", "Tar.gate.kinds.cfg", race_reps=10)
+        tar_sched_stage(ctx, "tarimpl-3x2", "Tar.gate.t3b.cfg", race_reps=0)
+        tar_sched_stage(ctx, "tarimpl-2x2-env2", "Tar.gate.env2.cfg", race_reps=0)
         tar_sched_stage(ctx, "tarimpl-4m", "Tar.gate.big.cfg", workers=2, vh_workers=4, race_reps=3)
     # every 512-byte block boundary of a fixed archive: EOF / reader error / corrupt header / cancel, 1..8 free-running openers
     graph_stage(ctx, "tarcut", "MC_Tar.tla", "Tar.cut.std.cfg", "tarcut", ["tarcut"], ["--opt", "2" if quick else "12"], workers=2, vh_workers=8)
